@@ -71,7 +71,10 @@ Cands ==
                          a \in (IF ParamNames(s) = {} THEN {0} ELSE {e \in Free : KindOf(e) \in {"val", "opt"}}),
                          b \in (IF ":q:" \in ParamNames(s) THEN {e \in Free : KindOf(e) \in {"val", "opt"}} ELSE {0})} : s \in Tmpls}
           ELSE {})
-    \cup (IF want = "apply" THEN {[k |-> "apply", src |-> s, f |-> f] : s \in Free, f \in Fns} ELSE {})
+    \cup (IF want = "apply"
+          THEN {[k |-> "apply", src |-> s, f |-> f, fp |-> fp] :
+                    s \in Free, f \in Fns, fp \in {0} \cup {e \in Free : KindOf(e) \in {"ds", "fnapp", "opt"}}}
+          ELSE {})
     \cup (IF want = "bind"
           THEN {[k |-> "bind", src |-> s, lk |-> TableSeq(t), other |-> ot] : s \in Free, t \in Tables, ot \in OptFree}
           ELSE {})
@@ -94,7 +97,7 @@ Cands ==
                     c \in CollKinds, a \in Free, b \in Free}
                \cup {[k |-> "coll", c |-> c, ms |-> <<a>>, names |-> <<"x">>] : a \in Free, c \in CollKinds \cap {"list", "dict"}}
                \cup {[k |-> "coll", c |-> "dict", ms |-> <<a, b, c3>>, names |-> <<"x", "y", "z">>] :
-                         a \in Free, b \in Free, c3 \in (IF "dict" \in CollKinds /\ Cardinality(CollKinds) = 1 THEN Free ELSE {})}
+                         a \in Free, b \in Free, c3 \in (IF "dict" \in CollKinds /\ "list" \notin CollKinds THEN Free ELSE {})}
           ELSE {})
     \cup (IF want = "map"
           THEN {[k |-> "map", inner |-> i, its |-> <<[p |-> p, n |-> a]>>] : i \in Free, p \in MapPaths, a \in Free}
@@ -128,7 +131,7 @@ ChildSlots(nd) ==
       [] nd.k = "opt" -> <<nd.d, nd.dom>>
       [] nd.k = "pred" -> <<nd.arg>>
       [] nd.k = "tmpl" -> [i \in 1 .. Len(nd.ps) |-> nd.ps[i].n]
-      [] nd.k = "apply" -> <<nd.src>>
+      [] nd.k = "apply" -> <<nd.src, nd.fp>>
       [] nd.k = "bind" -> <<nd.src, nd.other>> \o [i \in 1 .. Len(nd.lk) |-> nd.lk[i].n]
       [] nd.k = "switch" -> <<nd.d, nd.dflt>> \o [i \in 1 .. Len(nd.lk) |-> nd.lk[i].n]
       [] nd.k = "case" -> <<nd.d, nd.dflt>> \o Cat([i \in 1 .. Len(nd.cases) |-> <<nd.cases[i].c, nd.cases[i].n>>])
@@ -287,6 +290,7 @@ FC_Leaves == <<[p |-> pA, vals |-> {I(0), I(1), Str("x"), Lv(<<I(0), I(1)>>)}, e
 \* family "presets" (C08): pre-set / default option wrappers and dataset options, nested
 AllColl == {"iter", "list", "tuple", "set", "dict"}
 DictOnly == {"dict"}
+DictIter == {"dict", "iter"}
 NoCb == {""}
 NoEff == {<<>>}
 MemOnly == {"mem"}
@@ -366,10 +370,10 @@ FL_Leaves == <<[p |-> pA, vals |-> {I(0), I(1)}, extra |-> FALSE],
 
 \* family "maps" (C05, C03): Map over one and two keys in both key orders, distinct iterables
 FM_Kinds == {"val", "opt", "fnapp", "map"}
-FM_Paths == {pA, pSX}
+FM_Paths == {pA, pSX, pSY}
 FM_Consts == {Lv(<<I(0), I(1)>>), Lv(<<I(5), I(6), I(7)>>)}
 FM_Bodies == {"f"}
-FM_MapPaths == {pA, pSX, pB}
+FM_MapPaths == {pA, pSX, pSY}
 FM_Leaves == <<[p |-> pA, vals |-> {I(3)}, extra |-> FALSE],
                [p |-> pSX, vals |-> {I(4)}, extra |-> FALSE],
                [p |-> pB, vals |-> {I(2)}, extra |-> FALSE]>>
